@@ -1,9 +1,10 @@
-from . import streams_search, cli
+from . import streams_search, cli, streams_physdist
 
 ID = 'C12'
-PROPS_MODULE = ['Refine.Props.C12']
+PROPS_MODULE = ['Refine.Props.C12', 'Refine.Props.C12Par']
 STREAMS = [streams_search.TREE, streams_search.NEAREST, streams_search.KERNEL, streams_search.SCALE_TIE,
-           streams_search.SCALE, cli.DISTANCE, cli.DISTANCE_MPI]
+           streams_search.SCALE, cli.DISTANCE, cli.DISTANCE_MPI,
+           streams_physdist.PAR, streams_physdist.BC, streams_physdist.TAGS]
 
 EXPLANATION = (
     'Proved in Lean over exact real arithmetic, for the executable model of ref_search.c / '
@@ -29,6 +30,34 @@ EXPLANATION = (
     'made of the generated elements and is bit-compared with the model built in a fixed order. Oracles on the '
     "implementation's own output, exact rational arithmetic: BallInv on dumped arrays, brute-force overlap "
     'sets, brute-force minimum with an independent point-segment/point-triangle routine at 1e-12 L. '
+    'PARALLEL routine and wall selection (Props/C12Par over Model/PhysDist, package phys): the SPMD model of '
+    'ref_phys_wall_distance - every rank spreads its owned vertices over all ranks by ref_part_implicit, a_size/b_size '
+    'alltoall, a_next pack, alltoallv of the coordinates, ref_phys_bcast_parts chunks (max_ncell generated from the C), '
+    'one tree per chunk in ANY insertion order, alltoallv of the answers, second a_next walk, ref_node_ghost_dbl - is '
+    'proved to store at every vertex of every rank the minimum over ALL wall elements of ALL ranks of the kernel '
+    'distance, for every rank count >= 1, every distribution (ranks without walls or vertices included) and every '
+    'permutation on every rank and chunk (wallDistance_par_exact, wallDistance_par_exact_all, wallMin_spec, '
+    'bcast_parts_partition; composed from wallDistance_tri/seg_exact per chunk, C17.alltoallv_spec twice, '
+    'C06Ghost.ghostRefresh_spec and min-associativity); rank-count independence in exact arithmetic '
+    '(wallMin_np_independent) and bit for bit for any value type under the NAMED hypothesis '
+    'TreeReturnsMinOfKernelValues (wallDistance_par_bits; tree_returns_min_exact discharges it over the reals); '
+    'ref_phys_local_wall lists exactly the stored edg (2-D) / tri and qua (3-D) cells whose id the dict maps to a '
+    'viscous code, a quad as (0,1,2)+(0,2,3) which share the diagonal and cover the four vertices (localWall_spec, '
+    'localWall_count, quad_two_triangles); for a distribution of a global mesh in which every cell is stored by at '
+    'least one rank the union of the lists is the set of selected elements of the global mesh '
+    '(localWall_covers_global, wallMin_global; there is NO ownership test in the C: a cell stored by k ranks is listed '
+    'k times, harmless for min); the viscous codes are generated from ref_phys_wall_distance_bc and pinned to the '
+    'FUN3D list (viscous_codes_fun3d, tags_type_viscous, isWall_iff_viscous); ref_phys_read_mapbc at character level '
+    '(fscanf %d / fgets): a well-formed file selects exactly the ids whose last record carries a viscous code '
+    '(mapbc_selects_viscous), any input is answered with ok/failure/null and a well-formed dict (mapbc_total); '
+    '--viscous-tags (viscousTags_parse). Tie: stream physdist_par runs the REAL ref_phys_wall_distance[_static] on '
+    'k = 1..np ranks (np = 1..5) of generated distributed grids and compares every stored vertex bit for bit with the '
+    'model (trees built in index order), with the 1-rank run of the same mesh, with the other copies of the vertex, '
+    'and with an exact-rational brute force over the selected elements of the whole mesh (1e-12 L); physdist_bc '
+    'compares the REAL static ref_phys_local_wall, ref_phys_read_mapbc, ref_phys_read_mapbc_token, '
+    'ref_phys_parse_tags, ref_phys_wall_distance_bc with the model on well-formed and malformed inputs; '
+    'cli_distance_tags runs ref/refmpi distance with --fun3d-mapbc / --viscous-tags (serial, np=2,3) against a brute '
+    'force over exactly the selected faces. '
     'Stream search_scale additionally checks the 1e-12 L accuracy of ref_search_distance3 over element sizes '
     '1e-6..1e8 and needle aspect ratios to 1e4: that fails on /repo today (known finding, site '
     'ref_search_distance3:unnormalised-normal-projection) although model and C agree bit for bit.')
@@ -54,13 +83,30 @@ ASSUMPTIONS = [
     'whole serial ref_phys_wall_distance incl. ref_phys_local_wall for edg/tri walls selected by the bc dict '
     '(op walldist; the Float model inserts in index order - agreement of the bits with the C, which inserts in '
     'rand() order, is itself evidence that the float pruning dropped no nearer element on those inputs)',
-    'not covered here: the np>1 part of ref_phys_wall_distance (node balancing, bcast of wall parts in chunks of '
-    '1e6 cells, alltoallv of distances, ghost update), quads split into two triangles by ref_phys_local_wall, '
-    'ref_phys_wall_distance_static; run-level `ref distance`/`refmpi distance` streams belong to the CLI checks',
+    'parallel routine: MPI_Bcast inside ref_phys_bcast_parts, MPI_Alltoall(v) and the ghost exchange are the trusted '
+    'MPI semantics of Model/Comm (C17); hypotheses of wallDistance_par_exact (WorldOk): a rank stores a global once, '
+    'the part of every ghost is a rank that stores the vertex as its own, nowned <= REF_INT_MAX/n (beyond that the C '
+    'leaves the extra owned vertices at REF_DBL_MAX - modelled, not reachable by the harness), 3 x (number of stored '
+    'vertices) fits an int; the chunk limit max_ncell = 1e6 is generated and the theorems hold for every limit, but '
+    'the tie never reaches a second chunk (it would need > 1e6 wall elements)',
+    'bit-identity across rank counts for doubles rests on TreeReturnsMinOfKernelValues (the float pruning with the '
+    '1+1e-8 inflation drops no element that would lower the minimum) - stated as a named hypothesis of '
+    'wallDistance_par_bits, proved only in exact arithmetic, CHECKED on every generated input (C output at k ranks '
+    '== C output at 1 rank == index-order model, bit for bit); MIN is a semilattice only away from NaN and -0.0 '
+    '(kernel values are sqrt of sums of squares)',
+    'ref_phys_local_wall has no ownership test: ghost cells are listed again on every rank that stores them; the '
+    'theorem is about sets (localWall_covers_global), multiplicity is irrelevant for min and is not claimed',
+    'mapbc / tag parsers: character-level model of fscanf("%d") / fgets(1024) / strtok / atoi; numbers with 10 or more '
+    'digits (int overflow in scanf/atoi is undefined) and NUL bytes are refused by the harness; for '
+    'ref_phys_read_mapbc_token the input must end with a newline (at end of file fgets leaves `name` uninitialised '
+    'in the C - not reached by distance, which uses ref_phys_read_mapbc); ref_phys_signed_distance, '
+    'ref_phys_mask_strong_bcs and ref_phys_av_tag_attributes (EGADS) are not used by `ref distance` and not modelled',
     'heap/pointer/32-bit index behaviour of the C arrays is modelled with unbounded Nat/Int and an inductive tree '
     'whose nodes remember their array slot; element ids outside the caller-supplied xyz array are undefined '
     'behaviour in the C and are excluded by the harness (bad-op)',
 ]
 
 TRUSTED = ['harness/h_search.c, checks/streams_search.py (generators, exact-rational oracles, the Python '
-           'transcription of ref_search_distance3 used to attribute failures to the known finding)']
+           'transcription of ref_search_distance3 used to attribute failures to the known finding)',
+           'harness/h_physdist.c, checks/streams_physdist.py (generators, exact-rational brute force over the whole mesh, '
+           'independent reading of well-formed mapbc files, the FUN3D viscous code list), tools/translate_more_phys.py']
